@@ -22,6 +22,10 @@ pub fn show_limbs(l: &[u64]) -> String {
     out
 }
 
+/// `--spare`: operands are built inside a larger, reused buffer (capacity > length), so that code paths gated on
+/// spare capacity / buffer reuse are exercised; values are identical
+pub static SPARE: core::sync::atomic::AtomicBool = core::sync::atomic::AtomicBool::new(false);
+
 /// BigUint from limbs through the public constructor (normalises)
 pub fn parse_u(s: &str) -> Option<BigUint> {
     let l = parse_limbs(s)?;
@@ -29,6 +33,11 @@ pub fn parse_u(s: &str) -> Option<BigUint> {
     for d in l {
         w.push(d as u32);
         w.push((d >> 32) as u32);
+    }
+    if SPARE.load(core::sync::atomic::Ordering::Relaxed) {
+        let mut v = BigUint::new(vec![1u32; w.len() + 12]);
+        v.assign_from_slice(&w);
+        return Some(v);
     }
     Some(BigUint::new(w))
 }
